@@ -192,6 +192,38 @@ CLAIMED["C17"] = dict(
     technique="Lean 4 protocol proof + verified simulation checker over translated disassembly + stress correspondence",
     engine="SelfTest", ref="5 C17")
 
+CLAIMED["C13"] = dict(
+    text="Proof (Lean 4) over the wrappers as translated from the source on every run (T-route: tools/gen_wrappers.py, "
+         "clang JSON AST of the 13 wrapper files of the FIPS build -> 12-form statement language, Gen/WrappersFips.lean): "
+         "verified checkers (wellGated, nonApproved, xtsSameKey; soundness in Impl/WrapperC13.lean) evaluated on the "
+         "72-entry table by decide +kernel give, for every environment (every NULL subset, all scalars, all three "
+         "self-test statuses and both verdicts, every key relation, every callee report): approved entry points return "
+         "non-zero and do no call/store unless the gate passes, ERR_SELF_TEST with otherwise valid arguments, nothing "
+         "but the key-compare loads when the status is FAILED, the self tests run before any work when NOT RUN; "
+         "non-approved ones return ERR_FIPS_INVALID_ALGO with no effect; all 8 XTS forms refuse identical keys in the "
+         "form they arrive in (raw / enc schedule / dec schedule layouts). Tie of the model to the binary: stub-mode "
+         "harness (every internal callee interposed with ld --wrap) compares return code, accessed set, written set and "
+         "call sequence of every call with `run`; real-mode FIPS harness forces the status word and compares memory.",
+    note="Trusted: Lean kernel + standard axioms; clang AST + translator normalisations (anything unfit becomes `opaque` "
+         "and fails); Spec/ApiDomain.lean classification of the 72 entries; selfTestGate abstracts isal_self_tests() "
+         "(C17); internal callees abstract. D1 and F6 found by this check and fixed.",
+    technique="Lean 4 verified checker over translated wrappers (decide +kernel) + enumeration correspondence",
+    engine="Wrapper", ref="5 C13")
+CLAIMED["C16"] = dict(
+    text="Proof (Lean 4) over the translated wrappers of the default (SAFE_PARAM) build: verified checkers "
+         "(guardsBeforeUse, domainChecks, reportsCtxErrors, sameCallAs; soundness in Impl/WrapperC16.lean) give for every "
+         "environment: outside the documented domain (Spec/ApiDomain.lean) the entry point returns one of the documented "
+         "codes with no effect at all; inside it returns 0 if the callee reports none; every pointer is NULL-tested before "
+         "any use; context errors are mapped to their codes; each of the 69 legacy functions makes the same single call "
+         "with the same arguments as its isal_ counterpart (pairing from the deprecation notices). Tie: stub-mode "
+         "harness over every NULL subset (other pointers aimed at PROT_NONE pages) x boundary scalars on both builds, "
+         "real-mode harness: legacy/isal_ pairs byte-identical on random valid inputs, in-domain calls return 0.",
+    note="Trusted: Lean kernel + standard axioms; clang AST + translator; hand-written ApiDomain (cross-checked by "
+         "shapeMismatch and the harness). flags > 3 of the hash managers is refused through ctx->error (by design; "
+         "modelled as calleeReported). F7, F15, F19 found by this check and fixed.",
+    technique="Lean 4 verified checker over translated wrappers (decide +kernel) + enumeration correspondence",
+    engine="Wrapper", ref="5 C16")
+
 REASON_TODO = "check not built yet in this session (work in progress, see DESIGN.md status section)"
 
 props = [json.loads(l) for l in open(os.path.join(V, "properties.jsonl"))]
@@ -240,6 +272,8 @@ m = {
          "kind_free_text": "mini-x86 interpreter + exact symbolic execution + verified path checker; tools/gen_dispatch.py translator; harness/drv_dispatch.c under the hook"},
         {"name": "AES", "path": "lean/IsalVerif/Spec/Aes.lean", "serves_properties": ["C02", "C03", "C04", "C07"],
          "kind_free_text": "executable standards (FIPS-197, SP 800-38D, IEEE 1619, SP 800-38A) + GcmStream context model; harness/drv_aes.c"},
+        {"name": "Wrapper", "path": "lean/IsalVerif/Impl/Wrapper.lean", "serves_properties": ["C13", "C16"],
+         "kind_free_text": "statement language + run semantics of the isal_ wrappers, verified checkers (Impl/WrapperC13.lean, WrapperC16.lean), documented domain Spec/ApiDomain.lean; tools/gen_wrappers.py translator (clang AST); harness/drv_api.c"},
         {"name": "SelfTest", "path": "lean/IsalVerif/Impl/SelfTest.lean", "serves_properties": ["C17"],
          "kind_free_text": "abstract n-thread status-word protocol + mini-ISA machine (Impl/SelfTestMachine.lean) + verified simulation checker; tools/gen_selftest.py translator; harness/drv_fips.c"},
         {"name": "HashMB", "path": "lean/IsalVerif/Impl/HashMB.lean", "serves_properties": ["C01", "C06", "C11", "C15", "C20"],
